@@ -790,14 +790,21 @@ class Model(Object):
                 forward = reaction.forward_variable
                 reverse = reaction.reverse_variable
 
+                # The coefficients of the two variables in the current objective,
+                # whatever kind of objective that is.
+                obj_coefs = {
+                    var: coef
+                    for var, coef in self.solver.objective.get_linear_coefficients(
+                        [forward, reverse]
+                    ).items()
+                    if coef != 0
+                }
                 if context:
-                    obj_coef = reaction.objective_coefficient
-
-                    if obj_coef != 0:
+                    if obj_coefs:
                         context(
                             partial(
                                 self.solver.objective.set_linear_coefficients,
-                                {forward: obj_coef, reverse: -obj_coef},
+                                obj_coefs,
                             )
                         )
 
@@ -805,6 +812,12 @@ class Model(Object):
                     context(partial(setattr, reaction, "_model", self))
                     context(partial(self.reactions.add, reaction))
 
+                if obj_coefs:
+                    # Take the variables out of the objective first, otherwise the
+                    # objective expression keeps referring to the removed variables.
+                    self.solver.objective.set_linear_coefficients(
+                        {var: 0 for var in obj_coefs}
+                    )
                 self.remove_cons_vars([forward, reverse])
                 self.reactions.remove(reaction)
                 reaction._model = None
